@@ -354,7 +354,15 @@ impl<E, Ix: IndexType> Build for List<E, Ix> {
     /// Computes in **O(e')** time, where **e'** is the number of successors of `a`.
     ///
     /// **Panics** if the source node does not exist.<br>
+    #[track_caller]
     fn update_edge(&mut self, a: NodeIndex<Ix>, b: NodeIndex<Ix>, weight: E) -> EdgeIndex<Ix> {
+        if b.index() >= self.suc.len() {
+            panic!(
+                "{} is not a valid node index for a {} nodes adjacency list",
+                b.index(),
+                self.suc.len()
+            );
+        }
         let row = &mut self.suc[a.index()];
         for (i, info) in row.iter_mut().enumerate() {
             if info.suc == b {
